@@ -632,7 +632,19 @@ impl<'a> FG<'a> {
         let g = *self.r.pick(&c);
         let sig = self.env.types[self.env.imports[g as usize] as usize].clone();
         for p in &sig.params { self.expr(*p, d.min(2)); }
-        self.emit(Op::Call(g));
+        // through the table when a slot holds this import (the CallIndirect path of the interpreter has its
+        // own copy of the interrupt code)
+        let slots: Vec<u32> = if self.self_idx >= self.env.table_callers_from {
+            self.env.table.iter().enumerate().filter(|(_, f)| **f == Some(g)).map(|(i, _)| i as u32).collect()
+        } else { vec![] };
+        if !slots.is_empty() && self.r.chance(1, 2) {
+            let slot = *self.r.pick(&slots);
+            self.emit(Op::I32Const(slot as i32));
+            self.emit(Op::CallIndirect(self.env.imports[g as usize]));
+            self.st.hit("host-call(call_indirect)");
+        } else {
+            self.emit(Op::Call(g));
+        }
         for _ in &sig.params { self.pend.pop(); }
         if res.is_some() { self.pend.push(None); }
         self.st.hit(if self.mult > 1 { "host-call(in loop)" } else { "host-call" });
@@ -1001,7 +1013,7 @@ pub fn gen_case(r: &mut Rng, st: &mut Stats) -> (Case, Knobs) {
             let mut tab = vec![None; size];
             for s in tab.iter_mut() {
                 if r.chance(3, 4) {
-                    *s = Some(if r.chance(1, 3) { r.below(nimp as u64) as u32 } else { nimp + r.below(ntab_funcs as u64) as u32 });
+                    *s = Some(if r.chance(1, 2) { r.below(nimp as u64) as u32 } else { nimp + r.below(ntab_funcs as u64) as u32 });
                 }
             }
             env.table = tab.clone();
